@@ -47,6 +47,8 @@ def jobs(tier):
             out.append(("v%d.req%d" % (version, req), "job", dict(version=version, req=req, route="magnet")))
         out.append(("v%d.cli" % version, "job", dict(version=version, req=reqs[-1], route="cli")))
     out.append(("v1.urllist-string", "job", dict(version=1, req=0, route="magnet", ws_string=True)))
+    for version in (1, 3):
+        out.append(("v%d.second-call-in-process" % version, "job", dict(version=version, req=0, route="magnet", warmup=True)))
     if tier != "quick":
         out.append(("v3.noncanonical-info", "job", dict(version=3, req=0, route="magnet", shuffle=True)))
     return out
@@ -103,15 +105,23 @@ def build_meta(E, version, ws_string=False, shuffle=False):
     return meta, name, trackers, seeds
 
 
-def job(E, version, req, route, ws_string=False, shuffle=False, _mutants=None):
+def job(E, version, req, route, ws_string=False, shuffle=False, warmup=False, _mutants=None):
     meta, name, trackers, seeds = build_meta(E, version, ws_string, shuffle)
     fs = AFS()
     stored = ben_copy(meta)
     fs.add_token("/t/m.torrent", BenTok(stored))
+    if warmup:
+        # another metafile is turned into a magnet first, in the same process: a single announce key without
+        # announce-list (as other tools write it), web seeds, another name
+        other = {"announce": OStr("other.tr", nonempty=True), "url-list": [OStr("other.ws", nonempty=True)],
+                 "info": {"length": 7, "name": OStr("other.name", nonempty=True), "piece length": 16384, "pieces": ew.tok("other.pieces", 20)}}
+        fs.add_token("/t/other.torrent", BenTok(other))
     snap = fs.snapshot()
     w = World(fs, mutants=_mutants)
     C = w.mod("commands")
     try:
+        if warmup:
+            C.magnet("/t/other.torrent")
         if route == "magnet":
             uri = C.magnet("/t/m.torrent", version=req) if req else C.magnet("/t/m.torrent")
         else:
@@ -175,7 +185,7 @@ def job(E, version, req, route, ws_string=False, shuffle=False, _mutants=None):
 
 # ------------------------------------------------------------------ concrete side
 
-NASTY = ["my file & more=100% +#é中%2F.bin", "http://tr.example/ann?x=1&y=2 z&passkey=ab%2Fcd%3D", "http://[::1]/a+b#f", "udp://türk.example:80/%41",
+NASTY = ["my file & more=100% +#é中%2F.bin", "http://tr.example/ipv4:info/ann?x=1&y=2 z&passkey=ab%2Fcd%3D", "http://[::1]/a+b#f", "udp://türk.example:80/%41",
          "http://ws.example/dir name/?q=a&b", "http://w2/ä", "http://w3/+"]
 
 
@@ -195,7 +205,7 @@ def conc_meta(version, model, ws_string=False, shuffle=False):
         if version == 3 and int(model.get("empty-pieces", 0)) == 1:
             info["pieces"] = b""
             info["length"] = 0
-    meta = {}
+    meta = {"comment": "see http://wiki.example/net/ipv4:info and 4:infod4:name1:xe", "created by": "4:info"}
     t = int(model.get("trackers", 0))
     trackers = []
     if t == 1:
@@ -269,6 +279,13 @@ def replay(params, model, notes, workdir, seed):
     C = mods["torrentfile.commands"]
     try:
         with contextlib.redirect_stdout(io.StringIO()):
+            if params.get("warmup"):
+                other = {"announce": "http://other/tr", "url-list": ["http://other/ws"],
+                         "info": {"length": 7, "name": "other", "piece length": 16384, "pieces": hashlib.sha1(b"1234567").digest()}}
+                op = os.path.join(workdir, "other.torrent")
+                with open(op, "wb") as f:
+                    f.write(refconc.bencode(other))
+                C.magnet(op)
             if params["route"] == "magnet":
                 uri = C.magnet(mpath, version=req) if req else C.magnet(mpath)
             else:
